@@ -67,4 +67,25 @@ RatVal(t, ctx) ==
     [] t.k = "pow" -> LET a == RatVal(t.l, ctx)  b == RatVal(t.r, ctx) IN
                         IF a = UndefQ \/ b = UndefQ \/ IsNaN(a) \/ IsNaN(b) THEN UndefQ ELSE PowQ(a, b)
     [] OTHER -> UndefQ
+(* ---- forward error bound: the magnitude of the computation (every operation on absolute values) ---- *)
+RECURSIVE MagVal(_,_)
+MagVal(t, ctx) ==
+  CASE t.k = "c" -> (LET q == IF t.ty = "int" THEN SmallBig(t.b) ELSE NormQ(t.q[1], t.q[2]) IN IF q = UndefQ THEN UndefQ ELSE <<AbsI(q[1]), q[2]>>)
+    [] t.k = "v" -> (LET q == RatVal(t, ctx) IN IF q = UndefQ \/ IsNaN(q) THEN UndefQ ELSE <<AbsI(q[1]), q[2]>>)
+    [] t.k \in {"neg", "abs"} -> MagVal(t.c, ctx)
+    [] t.k = "sgn" -> <<1, 1>>
+    [] t.k = "fact" -> UndefQ
+    [] t.k \in {"add", "sub"} -> AddQ(MagVal(t.l, ctx), MagVal(t.r, ctx))
+    [] t.k = "mul" -> MulQ(MagVal(t.l, ctx), MagVal(t.r, ctx))
+    [] t.k = "div" -> DivQ(MagVal(t.l, ctx), MagVal(t.r, ctx))
+    [] t.k = "pow" -> PowQ(MagVal(t.l, ctx), RatVal(t.r, ctx))
+    [] OTHER -> UndefQ
+\* |f - q| <= 2^-44 * mag, with the observed float f = fn / fd given exactly (big integers)
+WithinRounding(fn, fd, q, mag) ==
+  LET qn == BigOf(q[1])  qd == BigOf(q[2])
+      diff == BSub(BMul(fn, qd), BMul(qn, fd))
+      adiff == [s |-> IF diff.s = 0 THEN 0 ELSE 1, m |-> diff.m]
+      lhs == BMul(BMul(adiff, BigOf(mag[2])), BPow(BigOf(2), 44))
+      rhs == BMul(BMul(BigOf(mag[1]), fd), qd)
+  IN BCmp(lhs, rhs) <= 0
 =============================================================================
